@@ -71,7 +71,7 @@ impl GateSink {
 	pub fn install() -> Arc<GateSink> {
 		let s = Arc::new(GateSink::default());
 		// drivers written before this gate existed do not expect it; `clear_ignored` turns it on
-		for site in ["stall.check", "close.signalled", "close.drained", "close.stop_sent", "close.tasks_idle", "close.joined"] {
+		for site in ["stall.check", "stall.decided", "close.signalled", "close.drained", "close.stop_sent", "close.tasks_idle", "close.joined"] {
 			s.ignore(site);
 		}
 		surrealkv::verif::set_sink(Some(s.clone() as Arc<dyn Sink>));
